@@ -103,6 +103,7 @@ type UE struct {
 	gotRelResp     bool
 	gotRelComplete bool
 	srPending      bool // service request: ICS request sent, response outstanding
+	NSvc           int  // service requests made by this UE
 	xres           []byte
 	kamf           []byte
 	sec            refnas.SecCtx
@@ -1145,6 +1146,7 @@ func (a *AMF) onServiceRequest(u *UE, plain []byte) [][]byte {
 		a.violate("prerequisite/service-request-without-session", "Service Request (data) from %s whose PDU session is %s", u.Supi, seNames[u.Sess])
 	}
 	u.srPending = true
+	u.NSvc++
 	sa := []byte{0x7e, 0x00, 0x4e}
 	return [][]byte{a.icsRequest(u, a.protect(u, sa, 2), u.Sess == seActive)}
 }
@@ -1204,5 +1206,8 @@ func (a *AMF) Summary() string {
 	return strings.Join(p, " ")
 }
 
-func (u *UE) StateName() string { return stNames[u.State] + "/" + seNames[u.Sess] }
+// StateName: what the AMF knows of the UE at the end: registration state, session state and how many service requests it made.
+func (u *UE) StateName() string {
+	return fmt.Sprintf("%s/%s/service-requests=%d", stNames[u.State], seNames[u.Sess], u.NSvc)
+}
 func (u *UE) ULCount() uint32   { return u.ulCount }
